@@ -328,6 +328,30 @@ def run_polls(ctx: Ctx, w: World) -> None:
                            for v in ctx.violations), "see violations")
 
 
+def reregistration(ctx: Ctx, w: World) -> None:
+    """registration is no way round the claim: registering an invocation again (a client re-sending its batch) while a runner
+    holds it leaves status, owner and retry count as they are (`registered_only_by_registration`: REGISTERED is entered once)"""
+    from pynenc.invocation.status import InvocationStatus as S
+
+    for st, owner in ((S.PENDING, "rA"), (S.RUNNING, "rA"), (S.RETRY, None), (S.REROUTED, None), (S.SUCCESS, None), (S.KILLED, "rA"), (S.PAUSED, "rA")):
+        w.reset()
+        inv = w.task(1)
+        inject_status(w.app, inv.invocation_id, st, owner, 0)
+        before = w.status(inv.invocation_id)
+        retries = w.app.orchestrator.get_invocation_retries(inv.invocation_id)
+        try:
+            w.app.orchestrator.register_new_invocations([inv])
+            err = None
+        except BaseException as e:  # noqa: BLE001
+            err = type(e).__name__
+        after = w.status(inv.invocation_id)
+        ctx.count()
+        ctx.distinct((w.kind, "reregistration", st.value))
+        if after != before or w.app.orchestrator.get_invocation_retries(inv.invocation_id) != retries:
+            ctx.report(f"reregistration-resets-held-invocation[{w.kind}]", f"[{w.kind}] register_new_invocations of an invocation that is {before[0]} under {before[1]} leaves it {after[0]} under {after[1]}"
+                                                                       f"{' (raised ' + err + ')' if err else ''}: registration took it away from its holder", {"scenario": "reregistration", "backend": w.kind, "status": st.value})
+
+
 def run(ctx: Ctx) -> None:
     lean_stage(ctx, tr.gen, THEOREMS)
     ctx.cov["rule"] = ("schedules of 2 threads enumerated depth-first with a pre-emption bound (2 quick / 3 thorough), 3-4 threads with seeded "
@@ -340,6 +364,7 @@ def run(ctx: Ctx) -> None:
             try:
                 run_lin(ctx, w, drv)
                 run_polls(ctx, w)
+                reregistration(ctx, w)
             finally:
                 w.close()
     finally:
